@@ -221,7 +221,7 @@ def random_stream(ctx, count, feats=None, flagsets=None, alphabets=None, per_pat
                   dialects=("xpath",), extra_inputs=(), groups=0.0, brefs=0.0, shapes=0.0):
     rng = ctx.rng
     flagsets = flagsets or ["", "i", "m", "s", "im", "ms", "is", "ims"]
-    alphabets = alphabets or ["ab", "abc", "ab\n", "aAb", "ab" + ASTRAL]
+    alphabets = alphabets or ["ab", "abc", "ab\n", "aAb", "aAbB", "ab" + ASTRAL]
     out = []
     while len(out) < count:
         d = rng.choice(dialects)
@@ -259,6 +259,11 @@ def slice_C01(ctx):
     # (b) seeded random structured patterns incl. back-references
     for d, fl, pat, inp, ast in random_stream(ctx, ctx.n(24000, 240000), shapes=0.3, per_pattern=5):
         tuples.append((d, fl, pat, inp, "", "random"))
+    for _ in range(ctx.n(600, 6000)):
+        ast, inps = gen.fixedrep(rng)
+        pat = gen.pp(ast)
+        for inp in inps:
+            tuples.append(("xpath", rng.choice(["", "i", "m"]), pat, inp, "", "fixedrep"))
     cases = mk_cases(tuples, "m")
     code, model, dis = run_slice(cases)
     spec = spec_match(cases)
@@ -295,6 +300,10 @@ def slice_C02(ctx):
     for p in hand:
         for inp in gen.all_strings("ab", 4) + ["a" + ASTRAL + "b", ASTRAL + "ab" + ASTRAL, "abcbcd", "aab́"]:
             tuples.append(("xpath", "", p, inp, "", "hand"))
+    # consecutive whole-line matches: each match ends where the next line starts
+    for p in ["^.*\n", "^a\n", "^[ab]+\n", "^.*$\n?", "^a?\n", "(?:^b\n)+?", "^.\n|^..\n"]:
+        for inp in gen.all_strings("a\n", 5) + ["l1\nl2\nl3", "a\nb\na\n", "ab\n\nab\n"]:
+            tuples.append(("xpath", "m", p, inp, "", "lines"))
     cases = mk_cases(tuples, "art")
     for c in cases:
         c.repl = "\u0001$0\u0002"
@@ -752,16 +761,26 @@ def slice_C08(ctx):
                                               alphabets=["ab", "abc", "ab\n", "aAb", "ab1"]):
         tuples.append((d, fl, pat, inp, "[$1]"))
     # shapes that trigger each shortcut
-    heads = ["ab", "a", "[ab]", "\\d", "^", "^a", ".", "(a)", "(?:ab|a)"]
-    reps = ["a*", "a+", "[ab]*", "\\s*", "\\d+", "a{2}", "a{2,3}", "[a-c]{1,2}", "a*?", "a+?", "(?:ab)*", ".*", "\\n*", "A*"]
-    tails = ["a", "b", "$", "^", "\n", "\\n", "[bc]", "\\d", "1", "A", "", "(?:a|b)", "b?", "$\nb", "^a", "\\s"]
-    for h in heads:
-        for r_ in reps:
-            for t in tails:
+    # (pattern text, a text it matches)
+    heads = [("ab", "ab"), ("a", "a"), ("[ab]", "b"), ("\\d", "1"), ("^", ""), ("^a", "a"), (".", "b"), ("(a)", "a"),
+             ("(?:ab|a)", "ab")]
+    reps = [("a*", "a"), ("a+", "a"), ("[ab]*", "b"), ("\\s*", " "), ("\\d+", "1"), ("a{2}", "a"), ("a{2,3}", "a"),
+            ("[a-c]{1,2}", "c"), ("a*?", "a"), ("a+?", "a"), ("(?:ab)*", "ab"), (".*", "b"), ("\\n*", "\n"), ("A*", "A"),
+            ("(?:ab){2}", "ab"), ("(?:ab){3}", "ab"), ("(?:aba){2,2}", "aba"), ("(?:ab){2,3}", "ab"), ("(?:ab){1,}?", "ab")]
+    tails = [("a", "a"), ("b", "b"), ("$", ""), ("^", ""), ("\n", "\n"), ("\\n", "\n"), ("[bc]", "c"), ("\\d", "1"),
+             ("1", "1"), ("A", "A"), ("", ""), ("(?:a|b)", "b"), ("b?", "b"), ("$\nb", "\nb"), ("^a", "a"), ("\\s", " "),
+             ("c", "c"), ("ab", "ab")]
+    for h, ht in heads:
+        for r_, unit in reps:
+            for t, tt in tails:
                 p = h + r_ + t
                 for fl in ("", "i", "m", "im", "s"):
                     inp = "".join(rng.choice("ab\nA1 ") for _ in range(rng.randint(0, 7)))
                     tuples.append(("xpath", fl, p, inp, "<$0>"))
+                # inputs made of the pattern's own parts: head, k repeat units, tail (and one spoiled)
+                for k in (1, 2, 3):
+                    tuples.append(("xpath", rng.choice(["", "m"]), p, ht + unit * k + tt, "<$0>"))
+                tuples.append(("xpath", "", p, "x" + ht + unit * 2 + "x" + tt, "<$0>"))
     longs = ["abcabcabc", "a{5}b{5}", "(?:abc){3}", "[ab]{6}c"]
     for p in longs:
         for inp in ("", "abcabcab", "abcabcabc", "aaaaabbbbb", "ababab" + "c"):
@@ -1049,7 +1068,7 @@ def slice_C12(ctx):
     inputs = gen.all_strings("ab\n\r", ctx.n(4, 5))
     pats = ["^", "$", "^a", "a$", "^a$", "^$", "a^b", "a$b", "a\n^b", "a$\nb", "(?:^a|b$)", "(?:^|a)b", "a(?:$|b)", "(^a)+", "(?:a$)+",
             "^*a", "$?b", "^+a", "${2}", "(?:^|$)a", "^^a", "a$$", ".", "a.b", ".*", "^.*$", "^.$", "[^a]", "(?:.|\n)a", "a.$", "^.a",
-            "\n^", "$\n", "^\n", "\n$", "(?:^a$\n?)+", "a*^b", "\n*$\nb", "(?:a|^)+b", "b(?:$|a)*", "^(?:a|b)*$", "(?:^a|^b)\n"]
+            "\n^", "$\n", "^\n", "\n$", "(?:^a$\n?)+", "^a\n", "^.*\n", "^[ab]*\n", "^b?\n", "^.\n?", "^(?:a|b)\n", "^a*$\n", "a*^b", "\n*$\nb", "(?:a|^)+b", "b(?:$|a)*", "^(?:a|b)*$", "(?:^a|^b)\n"]
     for _ in range(ctx.n(60, 400)):
         g = gen.Gen(rng, alphabet="ab\n", feats={"anchor", "dot", "alt", "quant", "nc", "grp", "reluctant"})
         _, p = g.pattern(rng.randint(2, 6))
@@ -1778,7 +1797,12 @@ def slice_C20(ctx):
     while len(pairs) < target:
         al = rng.choice(["ab", "abc", "ab\n"])
         g = gen.Gen(rng, alphabet=al, feats={"cls", "grp", "nc", "alt", "quant", "dot", "anchor", "reluctant"}, max_rep=2)
-        if rng.random() < 0.4:
+        special_inputs = None
+        k_ = rng.random()
+        if k_ < 0.15:
+            ast, special_inputs = gen.fixedrep(rng, al.replace("\n", "") or "ab")
+            pat = gen.pp(ast)
+        elif k_ < 0.5:
             ast = gen.shaped(rng, al.replace("\n", ""))
             pat = gen.pp(ast)
         else:
@@ -1793,7 +1817,7 @@ def slice_C20(ctx):
             continue
         # the group-removal law changes group numbers: compare spans only, not $N
         fl = rng.choice(["", "i", "m", "s"])
-        for inp in gen.inputs_for(rng, al, 4):
+        for inp in (special_inputs or gen.inputs_for(rng, al, 4)):
             a = Case(cid, "xpath", fl, pat, inp, "<$0>", "mra", tag=law)
             b = Case(cid + 1, "xpath", fl, pat2, inp, "<$0>", "mra", tag=law)
             cases += [a, b]
